@@ -106,6 +106,15 @@ def run(tier, seed, replay=None):
     n = 400 if tier == "quick" else 25000
     projs = [projects.gen_valid_project(rng, cfg_for()) for _ in range(n)]
     projs += mismatch_projects(rng, 30 if tier == "quick" else 300)
+    # a locale (or one namespace of it) that has been created but not translated yet: its file is exactly `{}`
+    for _ in range(20 if tier == "quick" else 400):
+        p = projects.gen_valid_project(rng, GenCfg(**{**cfg_for().__dict__, "n_locales": (2, 4), "p_fk": 0}))
+        locs = gen.effective_locales(p["cfg"])
+        victim = rng.choice(locs[1:])
+        for ns in (p["cfg"].get("namespaces") or [None]):
+            if rng.random() < 0.7:
+                p["data"][(ns, victim)] = []
+        projs.append(p)
     dirs, _ = workload.materialise(projs, "c07", seed=seed)
     for variant, suppress in (("json", False), ("json_suppress", True)):
         outs = workload.run_projects(dirs, variant)
